@@ -23,7 +23,7 @@ Full(b) == [full |-> TRUE, b |-> b]
 VARIABLES stream, bsz, phase, j, vb, eb, vslot, eslot, st, errs, appends, mpc, mtmp, wpc, wtmp
 vars == <<stream, bsz, phase, j, vb, eb, vslot, eslot, st, errs, appends, mpc, mtmp, wpc, wtmp>>
 
-Alph == IF Alpha = "safe" THEN SafeAlphabet ELSE Alphabet
+Alph == CASE Alpha = "safe" -> SafeAlphabet [] Alpha = "mini" -> MiniAlphabet [] OTHER -> Alphabet
 Workers == {"v", "e"}
 
 Init == /\ stream = <<>> /\ bsz \in BatchSizes /\ phase = "gen" /\ j = 1 /\ vb = <<>> /\ eb = <<>>
